@@ -126,6 +126,11 @@ class JSONPointer:
             return s
 
     def _getitem(self, obj: Any, key: Any) -> Any:  # noqa: PLR0912
+        if isinstance(obj, str):
+            # A JSON string has no children, even though Python strings
+            # are subscriptable.
+            raise JSONPointerTypeError(f"{key}: can't index into a string")
+
         try:
             return getitem(obj, key)
         except KeyError as err:
